@@ -68,7 +68,7 @@ MIN_BUDGET = 400
 # ~50 ms CPU per world (3 builds x (2 timing tables + all-pairs paths)); 7000 worlds are about
 # 22 s on 16 idle cores
 TIERS = {
-    'quick': {'runs': 7000, 'classes': 8, 'budget_s': 80},
+    'quick': {'runs': 7000, 'classes': 8, 'budget_s': 60},
     'thorough': {'runs': 150000, 'classes': 32, 'budget_s': 1100},
 }
 
